@@ -91,6 +91,9 @@ def plan(prop, tier, seed, ex_tables=None):
     if prop == 'C04':
         for t in corpus.giant_gen(seed) + corpus.giant(seed):
             out.append((t, False))
+    if prop not in ('C18', 'C01', 'C02', 'C16'):
+        for t in corpus.tall(seed, 120 if tier == 'quick' else 1200):
+            out.append((t, False))
     if prop not in ('C18',):
         for t in corpus.midwide(seed, big=(tier == 'thorough')):
             out.append((t, False))
